@@ -548,6 +548,10 @@ def run(ctx, R, tier):
     for o in R6.obs:
         if o.rule == "C06-R7":
             R.add("C01-R3", o.key.split("|", 1)[1], o.desc, o.ok, o.loc, o.detail)
+        if o.rule == "C06-R8" and o.key.split("|")[1] == "receive_data":
+            # the value that is decoded is the payload that was read: an inexact read (too few, too many, miscounted after a short first read) loses or corrupts the value
+            # of a large argument or result on a socket with a timeout, and nothing else
+            R.add("C01-R3", "transport|" + o.key.split("|", 1)[1], o.desc + " (the serializer is handed exactly the payload bytes that were sent)", o.ok, o.loc, o.detail)
 
     # ---------------------------------------------------------------- R4
     mp = p.cls("Pyro5.serializers.MsgpackSerializer")
